@@ -2111,6 +2111,11 @@ pub fn build(full_name: &str, level: u8) -> Option<Scenario> {
         // the first read request carries the empty byte string as its (unique) context
         s.empty_first_ctx = true;
     }
+    if name.contains("-gbatch") {
+        for nd in s.nodes.iter_mut() {
+            nd.batch_append = true;
+        }
+    }
     if name.contains("-camp") {
         // the application may call RawNode::campaign() once, on any node that may time out
         s.caps.campaigns = 1;
